@@ -138,6 +138,9 @@ def hist_configs(tier) -> list[dict]:
                "split": ["Amor", "Bourdin", "Miehe", "He", "AnisotStress"]}
     out = [dict(c, elemType="QUAD4") for c in deviations(factors, None)]
     out += [dict(c, elemType="TRI3") for c in deviations(factors, 1 if tier == "quick" else None)]
+    # the staggered scheme iterated to convergence (several damage/displacement iterations per step) instead of the default
+    # single pass: quick = the default configuration and its single-factor deviations, thorough = the full product, on QUAD4
+    out += [dict(c, elemType="QUAD4", tolConv=1e-2) for c in deviations(factors, 1 if tier == "quick" else None)]
     return out
 
 
@@ -699,6 +702,8 @@ def run_sequence(case, seq):
     simu, mesh, n0, n1 = build_simu(case)
     solver, split = case["solver"], case["split"]
     base = dict(solver=solver, regu=case["regu"], split=split, elemType=case["elemType"])
+    if "tolConv" in case:
+        base["staggered"] = "converged"
     v, obs = [], []
     d_prev = np.zeros(mesh.Nn)
     H_prev = None
@@ -712,7 +717,10 @@ def run_sequence(case, seq):
         simu.add_dirichlet(n0, [0.0, 0.0], ["x", "y"])
         simu.add_dirichlet(n1, [LOADS[L] * LOAD_A], ["x"])
         with np.errstate(all="ignore"):
-            simu.Solve()
+            if "tolConv" in case:
+                simu.Solve(tolConv=case["tolConv"], maxIter=40)
+            else:
+                simu.Solve()
         simu.Save_Iter()
         d_saved = np.array(simu.Get_results(-1)["damage"], dtype=float)
         d_live = np.array(simu.damage, dtype=float)
